@@ -111,11 +111,14 @@ def run(case: dict, ctx) -> dict:
         psf, player, pmeta = w.build(rng, block_size=pbs, nblocks=pn, states=["A"] * pn, placement="shuffle", tag=rng.getrandbits(48))
     else:
         tail = rng.choice([0, 0, rng.randrange(0, bs // 512) * 512, rng.randrange(0, bs)]) if n > 0 else 0
+        empty = n > 0 and rng.random() < 0.08
         sf, layer, meta = w.build(
             rng, block_size=bs, nblocks=n, tail_cut=min(tail, bs - 1), placement=case["placement"],
             blocks_offset=rng.choice([512, 456, 1024, 4096 + 8 * rng.randrange(64)]),
-            data_gap=rng.choice([0, 0, 512, 4096, 512 * rng.randrange(1, 64)]),
-            holes=rng.choice([0, 0, 1, 3]), tag=rng.getrandbits(48),
+            data_gap=rng.choice([0, 0, 512, 4096, 512 * rng.randrange(1, 64)]) if not empty else 0,
+            holes=rng.choice([0, 0, 1, 3]) if not empty else 0, tag=rng.getrandbits(48),
+            # a freshly created image: no block stored yet, nothing in the file behind the block map
+            states=[rng.choice("UUZ") for _ in range(n)] if empty else None, tight_end=empty,
         )
     small = sf.end <= (8 << 20)
     tri = 0
